@@ -90,7 +90,7 @@ def run_one(m, suite=False, tier="quick", seed="0"):
                     pass
             res["checks"][pid] = dict(rc=p.returncode, killed=ok, replay_reproduces=rep_ok,
                                       first=[ln for ln in p.stdout.splitlines()
-                                             if ": " in ln][:1],
+                                             if ": " in ln and not ln.startswith(("KNOWN-FINDING", "HARNESS-NOTE"))][:1],
                                       tail=p.stdout.strip().splitlines()[-1:])
         res["killed"] = any(c["killed"] for c in res["checks"].values())
         res["wall_s"] = round(time.time() - t0, 1)
